@@ -41,8 +41,24 @@ def replay_steps(kind, nx, param, k):
         if not numpy.array_equal(numpy.array(scr._scrn, dtype=float), full_before) or scr._R.bit_generator.state != state:
             bad = True
             notes.append("reading .scrn / repr() changed the screen or the random stream")
+        expect_row = None
+        try:
+            # the row the recursion must produce from THIS state: A (Z - ref) + B b + ref with b the next nx_size draws
+            g = numpy.random.Generator(type(scr._R.bit_generator)())
+            g.bit_generator.state = copy.deepcopy(state)
+            b = g.normal(0, 1, size=scr.nx_size)
+            Z = full_before[(scr.stencil_coords[:, 0], scr.stencil_coords[:, 1])]
+            ref = float(full_before[scr.reference_coord]) if kind != "vk" else 0.0
+            expect_row = numpy.asarray(scr.A_mat, dtype=float).dot(Z - ref) + numpy.asarray(scr.B_mat, dtype=float).dot(b) + ref
+        except Exception:
+            expect_row = None          # other attribute layout: the value comparison is skipped (shape/shift still checked)
         out = scr.add_row()
         after = numpy.array(scr.scrn, dtype=float)
+        if expect_row is not None and after.shape == (nx, nx):
+            tol = 1e-9 * max(1.0, float(numpy.max(numpy.abs(expect_row))))
+            if numpy.max(numpy.abs(after[0] - expect_row[:nx])) > tol:
+                bad = True
+                notes.append("step %d: row 0 is not A (Z - ref) + B b + ref for the current screen (max diff %.3g)" % (step, float(numpy.max(numpy.abs(after[0] - expect_row[:nx])))))
         if after.shape != (nx, nx):
             bad = True
             notes.append("step %d: exposed shape %s" % (step, after.shape))
